@@ -216,6 +216,16 @@ def run_pool(order, jobs, tier, on_result):
         tasks.put(i)
     limit = float(os.environ.get("VERIF_CASE_HARD_S", "300" if tier == "quick" else "2400"))
     procs, running, out, pending = {}, {}, [], set(order)
+    tick = float(os.sysconf("SC_CLK_TCK")) if hasattr(os, "sysconf") else 100.0
+
+    def cpu_s(pid):
+        # CPU seconds (user + system) the worker has used so far; the limit is on CPU time so that a loaded machine
+        # (other checks running next to this one) does not turn slow cases into harness errors; wall time is the backstop
+        try:
+            f = open(f"/proc/{pid}/stat").read().rsplit(")", 1)[1].split()
+            return (int(f[11]) + int(f[12])) / tick
+        except Exception:
+            return None
 
     def spawn():
         p = ctxm.Process(target=_worker_main, args=(tasks, results), daemon=True)
@@ -231,7 +241,7 @@ def run_pool(order, jobs, tier, on_result):
             msg = None
         if msg is not None:
             if msg[0] == "start":
-                running[msg[2]] = (msg[1], time.time())
+                running[msg[2]] = (msg[1], (time.time(), cpu_s(msg[2])))
             else:
                 _, idx, res = msg
                 if idx in pending:
@@ -242,10 +252,12 @@ def run_pool(order, jobs, tier, on_result):
                     if i == idx:
                         del running[pid]
         now = time.time()
-        for pid, (idx, t0) in list(running.items()):
+        for pid, (idx, (t0, c0)) in list(running.items()):
             p = procs.get(pid)
             dead = p is None or not p.is_alive()
-            if dead or now - t0 > limit:
+            c1 = None if (dead or c0 is None) else cpu_s(pid)
+            over = (now - t0 > limit) if c1 is None else (c1 - c0 > limit or now - t0 > 8 * limit)
+            if dead or over:
                 if p is not None:
                     p.kill()
                     p.join(5)
@@ -254,7 +266,7 @@ def run_pool(order, jobs, tier, on_result):
                 if idx in pending:
                     pending.discard(idx)
                     why = ("engine: worker died while running this case" if dead else
-                           f"engine: case exceeded the hard wall limit of {limit:.0f} s (a solver call did not honour its timeout); worker killed")
+                           f"engine: case exceeded the hard limit of {limit:.0f} CPU-seconds (a solver call did not honour its timeout); worker killed")
                     res = _lost_case(idx, why)
                     out.append(res)
                     on_result(res)
